@@ -136,6 +136,18 @@ Theorem C11_marker_restored_refuted :
 Proof. exact marker_restored_refuted_proof. Qed.
 Print Assumptions C11_marker_restored_refuted.
 
+(* REFUTED: "objects that stay referenced hold pairwise distinct ids".  Router.compile_program twice (scratch
+   convention, two value-returning methods): the id that the first build gave to a slot of a declaration cached by
+   store_into is handed out again by the second build (finding store-into-evaluates-and-caches; ties are then
+   broken by set order, C11_assign_tie_order_dependent) *)
+Theorem C11_router_recompile_reuses_cached_ids :
+  exists (ops : list op) (first second : list titem) (i : N),
+    nth_error (run_session_tr Faithful init_sstate ops) 2 = Some first /\
+    nth_error (run_session_tr Faithful init_sstate ops) 3 = Some second /\
+    nth_error first 2 = Some (TSlot i) /\ nth_error second 2 = Some (TSlot i).
+Proof. exact router_recompile_reuses_cached_ids_proof. Qed.
+Print Assumptions C11_router_recompile_reuses_cached_ids.
+
 (* ---- composition: the id-dependent stages do not see the history ---- *)
 Theorem C11_compile_history_independent_partial :
   forall (m : mode) (h : list evs) (p : program),
